@@ -3,6 +3,7 @@
 package runh
 
 import (
+	"errors"
 	"fmt"
 	"strconv"
 	"strings"
@@ -42,6 +43,7 @@ type world struct {
 	writeNo    int // cache-file writes started in the current step
 	crashed    bool
 	maxFail    int // highest status value a command may return
+	allowErr   bool // the runner itself may fail (a command the shell cannot even parse): an error, not a status
 }
 
 type crash struct{}
@@ -57,10 +59,18 @@ func (w *world) crashPoint() {
 
 type runner struct{ w *world }
 
+var errRunner = errors.New("the shell cannot run this command")
+
 // Run implements shell.Runner: commands are opaque, their status is symbolic.
 func (r *runner) Run(cmd string, stream iostream.IOStream, task string, env []string) (shell.Result, error) {
 	w := r.w
 	w.crashPoint() // killed before this command ran
+	if w.allowErr && sym.Bool("runerr"+strconv.Itoa(w.nExec)+"_"+strconv.Itoa(w.step)) {
+		// the shell could not run this command at all (for the real runner: a syntax error in
+		// the command text): spok stops the run with an error; nothing of this task counts
+		sym.Reach("runner-error")
+		return shell.Result{}, errRunner
+	}
 	st := sym.Int("status"+strconv.Itoa(w.nExec), 0, w.maxFail)
 	w.nExec++
 	w.executed = append(w.executed, execRec{w.step, task, cmd, st})
@@ -147,10 +157,11 @@ func History() {
 	allowForce := sym.ParamInt("force", 1) == 1
 	allowCrash := sym.ParamInt("crash", 0) == 1
 	allowRm := sym.ParamInt("rmcache", 1) == 1
+	allowMissing := sym.ParamInt("missing", 0) == 1 // a literal dependency file may be absent
 
 	setupProject(text)
 	defer teardownProject()
-	w := &world{crashCmd: -1, crashWrite: -1, maxFail: sym.ParamInt("maxstatus", 1)}
+	w := &world{crashCmd: -1, crashWrite: -1, maxFail: sym.ParamInt("maxstatus", 1), allowErr: sym.ParamInt("runerr", 0) == 1}
 	last := map[string]*inputs{}
 	// exempt[t]: since its last success, t failed on exactly the inputs of that success (sticky
 	// until the next success; may be symbolic). Its digest is then cleared and it must run again.
@@ -172,6 +183,11 @@ func History() {
 		tag := strconv.Itoa(s)
 		// --- the environment edits, reverts, adds and removes dependency files
 		for _, f := range files {
+			if allowMissing && sym.Bool("absent"+tag+"_"+f) {
+				// hashing a task that names it fails: the run stops with an error there
+				delPath(f)
+				continue
+			}
 			putFile(f, sym.String("in"+tag+"_"+f, 1))
 		}
 		for _, f := range globfiles {
@@ -325,13 +341,34 @@ func History() {
 				}
 			}
 		} else {
-			// error or crash: tasks whose commands completed successfully still count
+			// error or crash: tasks whose commands completed successfully still count, and a
+			// task that failed on the inputs of its last success is still not up to date
 			for t := range ran {
 				if okRun[t] {
 					in := currentInputs(sf, t)
-					in.why = whyNotRecorded(force, false, false, !allOK, true)
+					if crashed {
+						in.why = killed
+					} else {
+						in.why = "the-run-stopped-with-an-error-in-a-later-task"
+					}
 					last[t] = &in
 					exempt[t] = false
+				}
+			}
+			if !crashed {
+				// a task with a failed command - whether or not all its commands returned before
+				// the run stopped - is not up to date on the inputs of its last success
+				failedAny := map[string]bool{}
+				for _, e := range w.executed[first:] {
+					if e.status != 0 {
+						failedAny[e.task] = true
+					}
+				}
+				for t := range failedAny {
+					in := currentInputs(sf, t)
+					if prev := last[t]; prev != nil && prev.valid && samePaths(in.paths, prev.paths) {
+						exempt[t] = sym.Or(exempt[t], sameContents(in.contents, prev.contents))
+					}
 				}
 			}
 			if rerr != nil {
@@ -342,6 +379,11 @@ func History() {
 				sym.Observe("error"+tag+"-mentions-cache", strings.Contains(msg, "cache"))
 				if i := strings.LastIndex(msg, "\": "); i >= 0 {
 					msg = msg[i+3:]
+				}
+				// ... and without the operating system's wording of "no such file"
+				msg = strings.ReplaceAll(msg, root, "<root>")
+				if i := strings.Index(msg, ": open "); i >= 0 {
+					msg = msg[:i]
 				}
 				sym.Observe("error"+tag, msg)
 			}
